@@ -69,6 +69,7 @@
 
 #ifndef URI_DOXYGEN
 # include <uriparser/Uri.h>
+# include <uriparser/UriIp4.h>
 # include "UriNormalizeBase.h"
 # include "UriCommon.h"
 # include "UriMemory.h"
@@ -723,6 +724,23 @@ static URI_INLINE int URI_FUNC(NormalizeSyntaxEngine)(URI_TYPE(Uri) * uri,
 
 				URI_FUNC(LowercaseInplaceExceptPercentEncoding)(
 						uri->hostText.first, uri->hostText.afterLast);
+
+				/* With its percent-encodings decoded a registered name
+				 * may spell a dotted quad (e.g. "%31.2.3.4" -> "1.2.3.4").
+				 * That text is an IPv4 address when it is read back,
+				 * so the host is classified as one from here on. */
+				{
+					unsigned char octets[4];
+					if (URI_FUNC(ParseIpFourAddress)(octets, uri->hostText.first,
+							uri->hostText.afterLast) == URI_SUCCESS) {
+						uri->hostData.ip4 = memory->malloc(memory, sizeof(UriIp4));
+						if (uri->hostData.ip4 == NULL) {
+							URI_FUNC(PreventLeakage)(uri, doneMask, memory);
+							return URI_ERROR_MALLOC;
+						}
+						memcpy(uri->hostData.ip4->data, octets, 4);
+					}
+				}
 			}
 		}
 	}
